@@ -45,7 +45,7 @@ theorem lookup_mem_nat {β : Type} (d : List (Nat × β)) (n : Nat) (q : β)
     · exact List.mem_cons_of_mem _ (ih h)
 
 theorem mem_sortAsc {l : List Nat} {x : Nat} : x ∈ sortAsc l ↔ x ∈ l :=
-  (List.mergeSort_perm l _).mem_iff
+  (isort_perm l _).mem_iff
 
 /-! ## walks -/
 
